@@ -123,6 +123,9 @@ fn run_policy(case: &Case, reference: &[u8], pol: Policy, fe: usize, ev: &mut Ev
         Ok(Ok(())) => {
             if let Err(e) = judge(&sink.data(), reference, &case.kv) {
                 ev.violate("sink-bytes-differ", format!("policy {:?}: {}", pol, e), descr());
+            } else if sink.committed_data().len() != reference.len() {
+                // a sink that keeps only what was flushed (a transactional / staging writer) must end up with the same bytes
+                ev.violate("sink-bytes-differ", format!("policy {:?}: finish() returned, but only {} of {} bytes had been written when the sink was last flushed (a commit-on-flush sink ends up with a truncated FST)", pol, sink.committed_data().len(), reference.len()), descr());
             }
         }
     }
